@@ -137,11 +137,30 @@ XZSEEN = set()
 STATS = {}
 CHECKNAME = {0: "None", 1: "CRC32", 4: "CRC64", 10: "SHA-256"}
 
+def window_sweep(ctx, items, full):
+    """Multi-Stream files in which the Stream Header of a non-first Stream starts d bytes before/after the start of
+    the decoder's first look-back window (FileInfo!TempCap = 8192 bytes before the end of the file), d = -28..28 in
+    steps of four, for the last Stream and for a middle one, with and without Stream Padding."""
+    rng = ctx.rng
+    def small():
+        return dict(n=rng.choice([0, 1, 17, 300]), kind="text", seed=rng.randrange(1 << 30), check=rng.choice([0, 1, 4, 10]),
+                    preset=0, block_size=None, pad=rng.choice([0, 4]))
+    for d in range(-28, 32, 4):
+        for where in ("last", "middle"):
+            for pad in ((0, 4, 8) if full else (rng.choice([0, 4, 8]),)):
+                k = dict(window_delta=d, seed=rng.randrange(1 << 30), check=rng.choice([0, 1, 4, 10]), preset=rng.choice([0, 1]), pad=pad)
+                streams = [small() for _ in range(rng.choice([1, 2]))] + [k] + ([small()] if where == "middle" else [])
+                n = len(items)
+                items.append(dict(id=n, streams=streams, seed=rng.randrange(1 << 30), sweep=True,
+                                  path=os.path.join(ctx.workdir, "fi_%d.xz" % n)))
+
 def make_files(ctx, nfiles, ndamaged):
     rng = ctx.rng
     items = []
-    for n in range(nfiles + ndamaged):
-        dmg = n >= nfiles
+    window_sweep(ctx, items, not ctx.quick)
+    nsweep = len(items)
+    for n in range(nsweep, nsweep + nfiles + ndamaged):
+        dmg = n >= nsweep + nfiles
         small = dmg or rng.random() < 0.45
         ns = rng.choice([1, 1, 2, 2, 3, 4]) if not dmg else rng.choice([1, 2])
         streams = []
@@ -237,6 +256,8 @@ def file_info(ctx, nfiles, ndamaged, budget_events):
         reads = [8192, size, 0]
         if "damage" in it:
             reads = [8192, size]
+        elif it.get("sweep"):
+            reads = [size, 1000, 0]
         else:
             for rs in (7, 1):
                 if spent + size // rs < budget_events and size // rs < budget_events // 6:
